@@ -167,7 +167,7 @@ pub fn seeds(cfg: &Cfg) -> Vec<Seed> {
             }
         }
         for (i, b) in bodies(3, 1).iter().enumerate() {
-            if (i as u64 + cfg.seed) % 4 != 0 {
+            if (i as u64 + cfg.seed) % 6 != 0 {
                 continue;
             }
             let mut s = single(format!("skel-3/i32/{i}"), skeleton(IntTy::I32, b));
